@@ -57,10 +57,15 @@ def main():
                                    cwd=d, capture_output=True, text=True, env=dict(os.environ, PYTHONPATH=d, PYTHONDONTWRITEBYTECODE="1"))
                 tests = "tests:" + ("pass" if t.returncode == 0 else "FAIL")
             t0 = time.time()
+            evp = os.path.join(ROOT, "evidence", "%s.json" % prop)
+            saved = open(evp).read() if os.path.exists(evp) else None
             env = dict(os.environ, VERIF_REPO=d)
             c = subprocess.run([os.path.join(ROOT, "check"), prop, tier], cwd=ROOT, env=env, capture_output=True, text=True)
             # the evidence file was written for the scratch tree; never keep it
-            subprocess.run(["git", "checkout", "--", "evidence/%s.json" % prop], cwd=ROOT, capture_output=True)
+            if saved is not None:
+                open(evp, "w").write(saved)
+            elif os.path.exists(evp):
+                os.remove(evp)
             mech = [l.split("mechanism=")[1].split()[0] for l in c.stdout.splitlines() if l.startswith("VIOLATION") and "mechanism=" in l]
             status = {0: "MISSED", 1: "caught", 2: "INCONCLUSIVE"}.get(c.returncode, "rc%d" % c.returncode)
             rows.append((prop, os.path.relpath(patch, ROOT), status, round(time.time() - t0, 1), tests + " " + ",".join(sorted(set(mech)))[:150]))
@@ -70,7 +75,6 @@ def main():
             shutil.rmtree(d, ignore_errors=True)
             # replays written for scratch trees are not kept
         print("%-4s %-44s %-12s %6.1fs %s" % rows[-1], flush=True)
-    subprocess.run(["git", "clean", "-fdq", "replays"], cwd=ROOT)
     missed = [r for r in rows if r[2] != "caught"]
     print("\n%d/%d caught" % (len(rows) - len(missed), len(rows)))
     return 1 if missed else 0
